@@ -185,6 +185,11 @@ def check(case, acc):
              observe(lambda: np.where(mk(), _ra(rows), _ra(y))))
         _cmp(acc, "where(mask, x, scalar)", R([[a if b else -5 for a, b in zip(r, mr)] for r, mr in zip(rows, mrows)]),
              observe(lambda: np.where(mk(), _ra(rows), -5)))
+        # the same mask as numbers (numpy: every non-zero cell is true -- negative ones too)
+        k = itertools.count()
+        nrows = [[((-3, 2, -1)[next(k) % 3] if b else 0) for b in mr] for mr in mrows]
+        _cmp(acc, "where(numeric mask, x, y)", R([[a if b else c for a, b, c in zip(r, mr, yr)] for r, mr, yr in zip(rows, mrows, y)]),
+             observe(lambda: np.where(_ra(nrows), _ra(rows), _ra(y))))
         exps = [[a for a, b in zip(r, mr) if b] for r, mr in zip(rows, mrows)]
         _cmp(acc, "subset(mask)", R(exps), observe(lambda: _ra(rows).subset(mk())))
         flat = [a for r in exps for a in r]
